@@ -1,4 +1,4 @@
-#!/usr/bin/env python3
+#!/usr/bin/env python3-vt
 """Regenerate /verif/MANIFEST.json from tools/checks_table.py and validate it."""
 import json, os, subprocess, sys
 HERE = os.path.dirname(os.path.abspath(__file__))
